@@ -95,13 +95,17 @@ struct Reissue {
 }
 
 fn instruments() -> IndexedInstruments {
-    // the managed exchange (Okx) sorts AFTER BinanceSpot: its indices are not 0..n
+    // the managed exchange (Okx) sorts AFTER BinanceSpot and BEFORE Poloniex: its indices are not 0..n and it is
+    // neither the first nor the last venue listing these (shared) instrument names
     IndexedInstruments::new([
         fixtures::spot(ExchangeId::BinanceSpot, "btc", "usdt"),
         fixtures::spot(ExchangeId::Okx, "btc", "usdt"),
+        fixtures::spot(ExchangeId::Poloniex, "sol", "usdt"),
         fixtures::spot(ExchangeId::BinanceSpot, "eth", "usdt"),
         fixtures::spot(ExchangeId::Okx, "eth", "usdt"),
+        fixtures::spot(ExchangeId::Poloniex, "btc", "usdt"),
         fixtures::spot(ExchangeId::Okx, "sol", "usdt"),
+        fixtures::spot(ExchangeId::Poloniex, "eth", "usdt"),
     ])
 }
 
